@@ -188,7 +188,8 @@ fn op_alphabet() -> Vec<u8> {
 
 fn huge_operand(op: u8, st: &Stack) -> bool {
     // either of the two operands (an implementation may read them in either order)
-    matches!(op, 0x80 | 0x98 | 0x99) && st.iter().rev().take(2).any(|t| t.len() <= 8 && crate::refs::interp::num(t).magnitude() > &num_bigint::BigUint::from(1u32 << 16))
+    // independent of how the reference decodes the operand (see c14::huge_operand): three or more bytes
+    matches!(op, 0x80 | 0x98 | 0x99) && st.iter().rev().take(2).any(|t| t.len() >= 3)
 }
 
 pub fn spaces(tier: Tier) -> Vec<Space> {
@@ -788,16 +789,24 @@ pub fn spaces(tier: Tier) -> Vec<Space> {
     }
     // (f) size/count operands that can make an implementation allocate or spin: child processes with an allocation budget
     {
-        let vals = vals.clone();
-        let big: Vec<Vec<u8>> = ["ffffff7f", "ffffff00", "0000008000", "ffffffff7f", "ffff7f"].iter().map(|x| hex::decode(x).unwrap()).collect();
+        // every ordered pair over W = V + index alphabet (+ two wider operands) with an operand of three or more bytes: the
+        // stacks the in-process spaces leave out for NUM2BIN / LSHIFT / RSHIFT, and the same pairs under PICK, ROLL, SPLIT
+        let mut w = c14::operand_alphabet();
+        w.push(hex::decode("ffffff00").unwrap());
+        w.push(hex::decode("ffffffff7f").unwrap());
+        let w = Arc::new(w);
+        let nw = w.len() as u64;
         let hops = [0x80u8, 0x98, 0x99, 0x79, 0x7a, 0x7f];
-        v.push(Space::isolated("huge-operands", 6 * 22 * 5 * 2, move |case, acc| {
-            let c = coords(case.idx, &[6, 22, 5, 2]);
+        v.push(Space::isolated("huge-operands", 6 * nw * nw, move |case, acc| {
+            let c = coords(case.idx, &[6, nw, nw]);
             let op = hops[c[0] as usize];
-
-            let st: Stack = if c[3] == 0 { vec![vals[c[1] as usize].clone(), big[c[2] as usize].clone()] } else { vec![big[c[2] as usize].clone(), vals[c[1] as usize].clone()] };
-            if op == 0x80 && st.last().map(|t| t.len() <= 8 && crate::refs::interp::num(t) > num_bigint::BigInt::from(1 << 26)).unwrap_or(false) {
-                // NUM2BIN to a size of 2^31-1 legitimately produces a 2 GiB item: a memory question, not conformance/totality
+            let st: Stack = vec![w[c[1] as usize].clone(), w[c[2] as usize].clone()];
+            if !st.iter().any(|t| t.len() >= 3) {
+                acc.bump("evaluated_in_process", 1);
+                return;
+            }
+            if op == 0x80 && st.last().map(|t| t.len() <= 8 && crate::refs::interp::num(t) > num_bigint::BigInt::from(1 << 20)).unwrap_or(false) {
+                // NUM2BIN to a size above 1 MiB legitimately produces an item of that size (2 GiB for 2^31-1): a memory and time question, not conformance/totality; sizes up to 1 MiB are decided in index-operand-widths
                 return;
             }
             let mut toks = pushes_for(&st, &vec![]);
